@@ -86,6 +86,18 @@ func (bs *sqlPartStore) PutPart(ctx context.Context, tx database.Tx, partId part
 			return err
 		}
 	}
+	if chunkIndex == 0 {
+		// An empty part still has to exist: without a chunk row GetPart would
+		// report ErrPartNotFound for a part that was stored successfully.
+		partContentEntity := partContent.Entity{
+			Id:         ptrutils.ToPtr(partId),
+			ChunkIndex: 0,
+			Content:    []byte{},
+		}
+		if err := bs.partContentRepository.SavePartContent(ctx, tx.SqlTx(), bs.partStoreId, &partContentEntity); err != nil {
+			return err
+		}
+	}
 
 	return nil
 }
